@@ -1085,7 +1085,24 @@ func gen(r *rand.Rand, tier string, emit func(core.Case)) {
 	}
 }
 
+// oracleSelfTest: the oracle must flag a failing crash prefix and a failing final audit on
+// fabricated outputs (guards against output-format / parser drift silencing it).
+func oracleSelfTest() {
+	c := core.Case{Ops: []string{"new ih=1 nv=1", "prune retain=2 audit=2", "step id=1 audit=1"}}
+	fs := oracle(c, []string{"ok",
+		"prune=1 st=ok units=4 crashed=0 base=2 height=3 sth=3 audit=ok crash=5:2=1:noMeta",
+		"h=4 saved=1 apply=ok prune=none st=skip units=11 crashed=0 base=2 height=4 sth=4 audit=2:noCommit"})
+	got := map[string]bool{}
+	for _, f := range fs {
+		got[f.Fingerprint] = true
+	}
+	if !got["PruneBlocks.crash-prefix.noMeta"] || !got["SaveBlock.after-op.noCommit"] {
+		panic(fmt.Sprintf("C18 oracle self-test failed: %v", fs))
+	}
+}
+
 func main() {
+	oracleSelfTest()
 	core.Main(core.Prop{
 		ID: "C18", Driver: "c18", Gen: gen, Exec: execCase, Oracle: oracle,
 		NonTrivial: func(c core.Case, out []string) bool {
